@@ -200,6 +200,30 @@ func isZero(t *j5sgen.Type, c cand) bool {
 // expected verdict for the whole field.
 func expected(f *j5sgen.Field, c cand) (bool, string) {
 	t := f.Type
+	if t.Kind == "map" {
+		// values are stored under the keys k0, k1, ...: n distinct pairs
+		n := uint64(len(c.Items))
+		if c.Absent {
+			n = 0
+		}
+		if f.Required && n == 0 {
+			return false, "required"
+		}
+		if r := t.Rules; r != nil {
+			if r.MinPairs != nil && n < *r.MinPairs {
+				return false, "minPairs"
+			}
+			if r.MaxPairs != nil && n > *r.MaxPairs {
+				return false, "maxPairs"
+			}
+		}
+		for _, it := range c.Items {
+			if ok, why := satisfies(t.Items, it); !ok {
+				return false, "values." + why
+			}
+		}
+		return true, ""
+	}
 	if t.Kind == "array" {
 		n := uint64(len(c.Items))
 		if c.Absent {
@@ -336,7 +360,16 @@ func check(c valCase) (fails []vf.Failure, accepted, rejected int) {
 	for _, cd := range c.Cands {
 		msg := dynamicpb.NewMessage(md)
 		if !cd.Absent {
-			if c.Field.Type.Kind == "array" {
+			if c.Field.Type.Kind == "map" {
+				m := msg.Mutable(fd).Map()
+				for i, it := range cd.Items {
+					v, err := toValue(fd.MapValue(), c.Field.Type.Items, it)
+					if err != nil {
+						return []vf.Failure{vf.Failf("harness|value", "%v", err)}, 0, 0
+					}
+					m.Set(protoreflect.ValueOfString(fmt.Sprintf("k%d", i)).MapKey(), v)
+				}
+			} else if c.Field.Type.Kind == "array" {
 				l := msg.Mutable(fd).List()
 				for _, it := range cd.Items {
 					v, err := toValue(fd, c.Field.Type.Items, it)
@@ -399,8 +432,8 @@ func reasonOf(err error) string {
 func ruleSignature(f *j5sgen.Field) string {
 	t := f.Type
 	kind := t.Kind
-	if t.Kind == "array" {
-		kind = "array:" + t.Items.Kind
+	if t.Kind == "array" || t.Kind == "map" {
+		kind = t.Kind + ":" + t.Items.Kind
 	}
 	if t.Kind == "integer" {
 		kind += ":" + t.Format
@@ -644,6 +677,31 @@ func drawCase(t *rapid.T) valCase {
 		// a duplicate pair and an all-valid list
 		if len(itemCands) > 0 {
 			cs = append(cs, cand{Items: []cand{itemCands[0], itemCands[0]}, Note: "duplicate"})
+		}
+		return valCase{Field: f, Cands: cs}
+	}
+	if rapid.IntRange(0, 4).Draw(t, "ismap") == 0 {
+		item, itemCands := drawLeaf(t, true)
+		ty := &j5sgen.Type{Kind: "map", Items: item}
+		r := &j5sgen.Rules{}
+		if rapid.Bool().Draw(t, "minpairs") {
+			r.MinPairs = up(uint64(rapid.IntRange(0, 2).Draw(t, "minpairsv")))
+		}
+		if rapid.Bool().Draw(t, "maxpairs") {
+			r.MaxPairs = up(uint64(rapid.IntRange(1, 3).Draw(t, "maxpairsv")))
+		}
+		if !emptyRules(r) {
+			ty.Rules = r
+		}
+		f.Type = ty
+		f.Required = rapid.IntRange(0, 2).Draw(t, "required") == 0
+		cs := []cand{{Absent: true}, {Items: []cand{}}}
+		for n := 1; n <= 4; n++ {
+			items := make([]cand, n)
+			for i := range items {
+				items[i] = rapid.SampledFrom(itemCands).Draw(t, "value")
+			}
+			cs = append(cs, cand{Items: items})
 		}
 		return valCase{Field: f, Cands: cs}
 	}
